@@ -138,6 +138,62 @@ for _t in range(3):
 _mk_dynamic(False, 0)
 
 
+def rot_rect_pts(c, l, w, th):
+    import math
+
+    co, si = math.cos(th), math.sin(th)
+    return [(c[0] + co * x - si * y, c[1] + si * x + co * y) for x, y in ((-l / 2, -w / 2), (l / 2, -w / 2), (l / 2, w / 2), (-l / 2, w / 2))]
+
+
+@obligation("C07", "dynamic.turning-in-place", functions=F, max_paths={"quick": 6000, "thorough": 30000},
+            bounds="dynamic obstacle with a 6x1 rectangle that keeps its (symbolic) centre for three time steps and turns "
+                   "(headings 0, pi/2, 0.7): per-time-step shape assignment and registries")
+def turning(V):
+    import math
+
+    warnings.filterwarnings("ignore")
+    sc = scenario()
+    c = pos(V, "c")
+    headings = [0.0, math.pi / 2, 0.7]
+    shape = Rectangle(6.0, 1.0)
+    states = [st.KSState(time_step=i, position=np.array([c[0], c[1]]), orientation=headings[i], velocity=0.0, steering_angle=0.0) for i in (1, 2)]
+    o = DynamicObstacle(60, ObstacleType.CAR, shape, fx.init_state(0, c[0], c[1], headings[0]), TrajectoryPrediction(Trajectory(1, states), shape))
+    sc.add_objects(o)
+    sc.assign_obstacles_to_lanelets()
+    eps = 1e-6  # rotated corners are irrational: touching configurations are decided only up to rounding
+    for t in range(3):
+        inner = rot_rect_pts(c, 6.0 - 2 * eps, 1.0 - 2 * eps, headings[t])
+        outer = rot_rect_pts(c, 6.0 + 2 * eps, 1.0 + 2 * eps, headings[t])
+        must = {lid: V.Or([convex_intersect(V, qd, inner) for qd in quads(LAYOUT, lid)]) for lid in LIDS}
+        may = {lid: V.Or([convex_intersect(V, qd, outer) for qd in quads(LAYOUT, lid)]) for lid in LIDS}
+        got = set(o.prediction.shape_lanelet_assignment.get(t) or ())
+        reg = {lid for lid in LIDS if 60 in sc.lanelet_network.find_lanelet_by_id(lid).dynamic_obstacles_on_lanelet.get(t, set())}
+        V.prove(f"turning: shape assignment at step {t} (lanelets met by the occupancy shrunk by 1e-6 are listed, lanelets listed meet it grown by 1e-6)",
+                V.And([V.Implies(must[lid], lid in got) for lid in LIDS] + [V.Implies(lid in got, may[lid]) for lid in LIDS]))
+        V.prove(f"turning: lanelet registries at step {t} = recorded shape assignment", reg == got)
+
+
+@obligation("C07", "dynamic.turning-in-place.concrete-centres", functions=F,
+            bounds="as dynamic.turning-in-place with the centre taken from four concrete positions (symbolic index): data-dependent "
+                   "bookkeeping keyed by coordinates is exercised with hashable values")
+def turning_concrete(V):
+    import math
+
+    warnings.filterwarnings("ignore")
+    sc = scenario()
+    c = [(9.0, 1.5), (5.0, 1.0), (10.0, 3.0), (14.0, 2.0)][V.choice("centre", 4)]
+    headings = [0.0, math.pi / 2, 0.0]
+    shape = Rectangle(6.0, 1.0)
+    states = [st.KSState(time_step=i, position=np.array([c[0], c[1]]), orientation=headings[i], velocity=0.0, steering_angle=0.0) for i in (1, 2)]
+    o = DynamicObstacle(60, ObstacleType.CAR, shape, fx.init_state(0, c[0], c[1], headings[0]), TrajectoryPrediction(Trajectory(1, states), shape))
+    sc.add_objects(o)
+    sc.assign_obstacles_to_lanelets()
+    for t in range(3):
+        Q = rot_rect_pts(c, 6.0 - 2e-6, 1.0 - 2e-6, headings[t])
+        ts = {lid: V.Or([convex_intersect(V, qd, Q) for qd in quads(LAYOUT, lid)]) for lid in LIDS}
+        V.prove(f"turning (concrete centre): shape assignment at step {t}", set_is(V, o.prediction.shape_lanelet_assignment.get(t), ts))
+
+
 def _mk_program(sym, k, tier):
     @obligation("C07", f"program.k{k}.{sym}-symbolic", tier=tier, functions=F, max_paths={"quick": 6000, "thorough": 60000},
                 bounds=f"programs of {k} operations over {{assign all, remove static, remove dynamic, add static again, add dynamic again}} on a "
